@@ -116,13 +116,16 @@ Proof.
   { destruct a as [|token domain rcp hook md gas fd fa| | |]; try discriminate.
     destruct (is_ok (tattr_validate t)) eqn:Hv; [|discriminate].
     destruct (is_ok (hyp_validate token domain rcp hook md)) eqn:Hh; [|discriminate]. cbn [andb].
+    destruct (is_ok (hyp_fee_validate fd fa)) eqn:Hfee; [|discriminate]. cbn [andb].
     destruct (cfg_hyp_token cfg token) as [origin|] eqn:Htok; [|discriminate].
     destruct (String.eqb origin (t_ddenom t)) eqn:Ho; [|discriminate]. intros H; inversion H; subst.
-    apply is_ok_true in Hv as [[] Hv]. apply is_ok_true in Hh as [[] Hh]. cbn [negb andb].
+    apply is_ok_true in Hv as [[] Hv]. apply is_ok_true in Hh as [[] Hh]. apply is_ok_true in Hfee as [[] Hfee]. cbn [negb andb].
     match goal with |- runs _ _ _ ?c ?m => rewrite <- (app_nil_l c), <- (app_nil_l m) end.
     eapply runs_bind; [apply runs_lift; [exact Hv|exact Q]|]. intros s1 Q1 _.
     match goal with |- runs _ _ _ ?c ?m => rewrite <- (app_nil_l c), <- (app_nil_l m) end.
-    eapply runs_bind; [apply runs_lift; [exact Hh|exact Q1]|]. intros s2 Q2 _.
+    eapply runs_bind; [apply runs_lift; [exact Hh|exact Q1]|]. intros s2' Q2' _.
+    match goal with |- runs _ _ _ ?c ?m => rewrite <- (app_nil_l c), <- (app_nil_l m) end.
+    eapply runs_bind; [apply runs_lift; [exact Hfee|exact Q2']|]. intros s2 Q2 _.
     change [CHypToken token; CHypTransfer (cfg_orbiter_bech cfg) token domain rcp (t_damt t) (opt_str hook) gas fd fa md]
       with ([CHypToken token] ++ [CHypTransfer (cfg_orbiter_bech cfg) token domain rcp (t_damt t) (opt_str hook) gas fd fa md]).
     match goal with |- runs _ _ _ _ ?m => rewrite <- (app_nil_l m) end.
